@@ -151,6 +151,14 @@ fn pipe2() -> anyhow::Result<[libc::c_int; 2]> {
 }
 
 pub fn run_command(cmdline: &str, mut output_cb: impl FnMut(&[u8])) -> anyhow::Result<Termination> {
+    #[cfg(n2_verif)]
+    if let Some(res) = crate::verif::run_command(cmdline) {
+        let res = res?;
+        if !res.output.is_empty() {
+            output_cb(&res.output);
+        }
+        return Ok(res.termination);
+    }
     // Spawn the subprocess using posix_spawn with output redirected to the pipe.
     // We don't use Rust's process spawning because of issue #14 and because
     // we want to feed both stdout and stderr into the same pipe, which cannot
